@@ -108,6 +108,26 @@ theorem objVec_path_doc (sbs : Bool) (T : Nat) (val : Val) (m : Nat) (gj : Goal 
     rw [sum_map_div']
   · simp
 
+/-- objective of one ensemble member in documented form -/
+theorem memberObjective_doc (sbs : Bool) (T : Nat) (val : Val) (goals pathGoals : List Goal) (m : Nat) :
+    memberObjective sbs T val goals pathGoals m
+      = ((((indexed goals).filter (fun gj => !gj.1.critical)).map (docPoint val m)).sum
+          + (((indexed pathGoals).filter (fun gj => !gj.1.critical)).map (docPath sbs T val m)).sum)
+        / (if sbs then (nGoalsDoc goals pathGoals : Rat) else 1) := by
+  simp only [memberObjective, gpObjective_eq, nObjectives_eq, vertcat_sum]
+  rw [sum_map_div', sum_comm']
+  simp only [objVec_point_doc, objVec_path_doc]
+  rw [sum_filter', sum_filter']
+  ring
+
+theorem objective_eq_documented (sbs : Bool) (T : Nat) (probs : List Rat) (val : Val)
+    (goals pathGoals : List Goal) :
+    objective sbs T probs val goals pathGoals = documented sbs T probs val goals pathGoals := by
+  unfold objective documented
+  apply sum_map_congr'
+  intro pm _
+  rw [memberObjective_doc]; ring
+
 /-! ### coefficient table -/
 
 theorem evalTerms_append (val : Val) (a b : List Term) :
